@@ -114,6 +114,9 @@ func (x *Exec) execInstr(st *State, in ssa.Instruction) error {
 		v := x.val(st, in.X)
 		x.setReg(in, retype(v, in.Type()))
 	case *ssa.MakeInterface:
+		if x.fc != nil && x.fc.Encodable {
+			x.obligeEncodable(st, x.val(st, in.X), in.X.Type(), in.Pos())
+		}
 		x.setReg(in, x.makeInterface(st, x.val(st, in.X), in.X.Type(), in.Type()))
 	case *ssa.ChangeInterface:
 		v := x.val(st, in.X)
@@ -966,4 +969,50 @@ func (x *Exec) subSlice(st *State, base *Val, lo, hi *Term, t types.Type) *Val {
 		x.heapSet(st, key, tStore(h, r, nw))
 	}
 	return &Val{K: VSlice, Typ: t, F: []*Val{scalar(r, nil), scalar(intLit(0), nil), scalar(tArith("-", hi, lo), nil)}}
+}
+
+// obligeEncodable: under `check encodable`, a value boxed into an interface must be something encoding/json can
+// write: no channel, function or complex value anywhere in its static type, and a float must be a number (our float
+// model flags NaN, and the result of dividing by zero, as not-a-number).
+func (x *Exec) obligeEncodable(st *State, v *Val, t types.Type, pos token.Pos) {
+	if !jsonEncodableType(t, map[types.Type]bool{}) {
+		x.oblige(st, "encodable", "type", tFalse, pos, "boxed value of type "+t.String()+" is JSON-encodable", nil)
+		return
+	}
+	if v.K != VFloat {
+		x.oblige(st, "encodable", "type", tTrue, pos, "boxed value of type "+t.String()+" is JSON-encodable", nil)
+	}
+	if v.K == VFloat {
+		x.oblige(st, "encodable", "float-is-a-number", tNot(v.F[0].T), pos, "boxed float is neither NaN nor the result of a division by zero", nil)
+	}
+}
+
+func jsonEncodableType(t types.Type, seen map[types.Type]bool) bool {
+	t = types.Unalias(t)
+	if seen[t] {
+		return true
+	}
+	seen[t] = true
+	switch u := t.Underlying().(type) {
+	case *types.Basic:
+		return u.Info()&types.IsComplex == 0 && u.Kind() != types.UnsafePointer
+	case *types.Chan, *types.Signature:
+		return false
+	case *types.Pointer:
+		return jsonEncodableType(u.Elem(), seen)
+	case *types.Slice:
+		return jsonEncodableType(u.Elem(), seen)
+	case *types.Array:
+		return jsonEncodableType(u.Elem(), seen)
+	case *types.Map:
+		return jsonEncodableType(u.Elem(), seen)
+	case *types.Struct:
+		for i := 0; i < u.NumFields(); i++ {
+			if u.Field(i).Exported() && !jsonEncodableType(u.Field(i).Type(), seen) {
+				return false
+			}
+		}
+		return true
+	}
+	return true // interfaces: decided where the dynamic value was boxed
 }
